@@ -70,7 +70,7 @@ Definition wf_loc (l : locals) : Prop :=
   /\ match l_ring l with Some r => alen r = l_rlen l /\ 0 < l_rlen l | None => True end
   /\ wf_tbl (fun _ : N => True) (l_shadow l).
 
-Definition wf_stepres (r : stepres locals) : Prop := match r with Cont l | Term _ l | PyError l => wf_loc l end.
+Definition wf_stepres (r : stepres locals) : Prop := match r with Cont l | Term _ l | PyError _ l => wf_loc l end.
 
 Lemma wf_loc_bump_out l : wf_loc l -> wf_loc (bump_out l). Proof. intros H; exact H. Qed.
 Lemma wf_loc_bump_in l : wf_loc l -> wf_loc (bump_in l). Proof. intros H; exact H. Qed.
@@ -206,27 +206,17 @@ Proof.
   intros Hne. destruct (proj2 (Hv k Hk) Hne) as [[p [Hp Hlt]] Hle]. eauto.
 Qed.
 
-Lemma paged_op_ok al ov wd fc l s n fo c :
-  I n fo c s -> wf_loc l -> (forall x, fo = Some x -> fc = x) ->
-  post (paged_op al ov wd fc l s) (fun r s' => I n fo c s' /\ wf_stepres r) (I n fo c).
+Lemma paged_op_body_ok al ov wd fc l2 s n fo c :
+  I n fo c s -> wf_loc l2 -> (forall x, fo = Some x -> fc = x) ->
+  post (paged_op_body al ov wd fc l2 s) (fun r s' => I n fo c s' /\ wf_stepres r) (I n fo c).
 Proof.
-  intros H Hl0 Hfc. pose proof (I_cfg _ _ _ _ H) as Wc. pose proof H as (_ & _ & _ & Ec).
-  unfold paged_op. pose proof (signal_check_wf wd l Hl0) as Hsc.
-  destruct (signal_check wd l) as [l1|r]; [|apply post_ret; split; assumption].
-  rename Hsc into Hl1. rewrite bind_gets, Ec.
-  (* the ring write *)
-  eapply (post_bind _ _ _ (fun lr s' => s' = s /\ wf_loc lr /\ l_ip lr = l_ip l1)).
-  { pose proof Hl1 as (Hip1 & Hring & Hsh). destruct (l_ring l1) as [ring|] eqn:Er; [|apply post_ret; auto].
-    destruct Hring as [Hrl Hpos]. unfold umod. destruct (N.eqb_spec (l_rlen l1) 0); [lia|]. rewrite bind_lift_ok.
-    assert (l_rw l1 mod l_rlen l1 < l_rlen l1) by (apply N.mod_lt; lia).
-    rewrite aset_ok by lia. rewrite bind_lift_ok. apply post_ret. split; [reflexivity|]. split; [|reflexivity].
-    split; [exact Hip1|]. split; [cbn [l_ring l_rlen set_ring]; split; [exact Hrl|exact Hpos]|exact Hsh]. }
-  intros l2 s' (-> & Hl & Eip). pose proof Hl as (Hip & _). rewrite Eip in *. rewrite bind_gets.
-  pose proof (shiftr_ww_lt c (l_ip l1) Wc Hip) as Hwa.
+  intros H Hl Hfc. pose proof (I_cfg _ _ _ _ H) as Wc. pose proof H as (_ & _ & _ & Ec).
+  unfold paged_op_body. rewrite bind_gets, Ec. pose proof Hl as (Hip & _). rewrite bind_gets.
+  pose proof (shiftr_ww_lt c (l_ip l2) Wc Hip) as Hwa.
   set (with_ring := match l_ring l2 with Some _ => true | None => false end).
   (* read flip word *)
   eapply (post_bind _ _ _ (fun fw s' => exists n', n <= n' /\ Ival n' fo c (fst fw) s' /\ lane_ok n' fo fc (snd fw))).
-  { destruct (negb (N.land (l_ip l1) (usub (c_w c) 1) =? 0)).
+  { destruct (negb (N.land (l_ip l2) (usub (c_w c) 1) =? 0)).
     { eapply post_bind; [apply (mem_get_word_unaligned_ok al ov _ s n _ c H Hip)|].
       intros r s' Hr. apply post_ret. exists n. split; [lia|]. split; [exact Hr|exact Logic.I]. }
     destruct (with_ring && match f_arr (m_fl s) with Some _ => true | None => false end) eqn:Euf.
@@ -236,14 +226,14 @@ Proof.
       { destruct H as (_ & _ & Hfs & _). unfold fshape in Hfs. destruct (f_arr (m_fl s)); [|discriminate].
         rewrite <- Hfs. f_equal. symmetry. apply Hfc. now rewrite <- Hfs. }
       subst fo.
-      unfold nowrap. destruct (N.ltb_spec (N.shiftr (l_ip l1) (c_ww c) + 1) U64); [|lia]. rewrite bind_lift_ok.
-      destruct (N.leb_spec fc (N.shiftr (l_ip l1) (c_ww c) + 1)).
+      unfold nowrap. destruct (N.ltb_spec (N.shiftr (l_ip l2) (c_ww c) + 1) U64); [|lia]. rewrite bind_lift_ok.
+      destruct (N.leb_spec fc (N.shiftr (l_ip l2) (c_ww c) + 1)).
       - eapply post_bind; [apply (mem_read_word_ok al ov _ s n _ c H); lia|].
         intros r s' Hr. apply post_ret. exists n. split; [lia|]. split; [exact Hr|exact Logic.I].
       - eapply post_bind; [apply (flat_value_ok ov _ s n fc c H); lia|].
         intros r s' Hr. apply post_ret. exists n. split; [lia|]. split; [exact Hr|]. cbn. split; [reflexivity|assumption]. }
     (* the paged lanes *)
-    set (wa := N.shiftr (l_ip l1) (c_ww c)) in *.
+    set (wa := N.shiftr (l_ip l2) (c_ww c)) in *.
     destruct (N.land wa PAGE_MASK =? PAGE_MASK).
     { eapply post_bind; [apply (mem_read_word_ok al ov _ s n _ c H); lia|].
       intros r s' Hr. apply post_ret. exists n. split; [lia|]. split; [exact Hr|exact Logic.I]. }
@@ -306,16 +296,36 @@ Proof.
   eapply (post_bind _ _ _ (Ival n' fo c)).
   { destruct lane as [p off ve|ja|]; cbn in Hlane.
     - destruct Hlane as (Hp & Hoff & Hve). destruct (N.leb_spec ve (off + 1)).
-      + unfold nowrap. destruct (N.ltb_spec (N.shiftr (l_ip l1) (c_ww c) + 1) U64); [|lia]. rewrite bind_lift_ok.
+      + unfold nowrap. destruct (N.ltb_spec (N.shiftr (l_ip l2) (c_ww c) + 1) U64); [|lia]. rewrite bind_lift_ok.
         apply mem_read_word_ok; [assumption|lia].
       + eapply post_bind; [apply (page_read_ok p (off + 1) s3 n' fo c H3 Hp); lia|].
         intros v s4 [-> Hv]. apply post_ret. split; [assumption|intros x [= <-]; assumption].
     - destruct Hlane as [-> Hja]. now apply flat_value_ok.
-    - destruct (negb (N.land (l_ip l1) (usub (c_w c) 1) =? 0)); [apply mem_get_word_unaligned_ok; [assumption|apply wrapv_lt]|].
-      unfold nowrap. destruct (N.ltb_spec (N.shiftr (l_ip l1) (c_ww c) + 1) U64); [|lia]. rewrite bind_lift_ok.
+    - destruct (negb (N.land (l_ip l2) (usub (c_w c) 1) =? 0)); [apply mem_get_word_unaligned_ok; [assumption|apply wrapv_lt]|].
+      unfold nowrap. destruct (N.ltb_spec (N.shiftr (l_ip l2) (c_ww c) + 1) U64); [|lia]. rewrite bind_lift_ok.
       apply mem_read_word_ok; [assumption|lia]. }
   intros [j|] s4 [H4 Hj]; [|now apply memory_error_exit_ok].
   apply post_ret. split; [assumption|]. apply finish_op_wf; [assumption|now apply Hj].
+Qed.
+
+Lemma paged_op_ok al ov wd fc l s n fo c :
+  I n fo c s -> wf_loc l -> (forall x, fo = Some x -> fc = x) ->
+  post (paged_op al ov wd fc l s) (fun r s' => I n fo c s' /\ wf_stepres r) (I n fo c).
+Proof.
+  intros H Hl0 Hfc.
+  unfold paged_op. pose proof (signal_check_wf wd l Hl0) as Hsc.
+  destruct (signal_check wd l) as [l1|r]; [|apply post_ret; split; assumption].
+  rename Hsc into Hl1.
+  (* the ring write *)
+  eapply (post_bind _ _ _ (fun lr s' => s' = s /\ wf_loc lr /\ l_ip lr = l_ip l1)).
+  { pose proof Hl1 as (Hip1 & Hring & Hsh). destruct (l_ring l1) as [ring|] eqn:Er; [|apply post_ret; auto].
+    destruct Hring as [Hrl Hpos]. unfold umod. destruct (N.eqb_spec (l_rlen l1) 0); [lia|]. rewrite bind_lift_ok.
+    assert (l_rw l1 mod l_rlen l1 < l_rlen l1) by (apply N.mod_lt; lia).
+    rewrite aset_ok by lia. rewrite bind_lift_ok. apply post_ret. split; [reflexivity|]. split; [|reflexivity].
+    split; [exact Hip1|]. split; [cbn [l_ring l_rlen set_ring]; split; [exact Hrl|exact Hpos]|exact Hsh]. }
+  intros l2 s' (-> & Hl & Eip).
+  eapply post_bind; [eapply post_catch; apply (paged_op_body_ok al ov wd fc l2 s n fo c H Hl Hfc)|].
+  intros [r|e] s1 Hx; apply post_ret; [exact Hx|split; [exact Hx|exact Hl]].
 Qed.
 
 (* ---------------------------------------------------------------- run_measured_loop *)
@@ -372,7 +382,7 @@ Qed.
 
 (* ---------------------------------------------------------------- any number of ops of any of the three loops *)
 
-Definition wf_runres (r : runres) : Prop := match r with Finished _ l | Failed l | Running l => wf_loc l end.
+Definition wf_runres (r : runres) : Prop := match r with Finished _ l | Failed _ l | Running l => wf_loc l end.
 
 (* the loops a dispatcher can select: the flat loop only on flat storage, with the cached flat_count *)
 Definition loop_pre (k : loopkind) (fo : option N) (fc : N) : Prop :=
@@ -394,7 +404,7 @@ Lemma loop_n_ok k al ov wd fc steps : forall l s n fo c,
 Proof.
   induction steps as [|steps IH]; intros l s n fo c H Hl Hp; cbn [loop_n]; [apply post_ret; split; assumption|].
   eapply post_bind; [apply (loop_op_ok k al ov wd fc l s n fo c H Hl Hp)|].
-  intros [l'|cz l'|l'] s' [H' Hr]; cbn in Hr; [now apply IH|apply post_ret; split; assumption..].
+  intros [l'|cz l'|e l'] s' [H' Hr]; cbn in Hr; [now apply IH|apply post_ret; split; assumption..].
 Qed.
 
 (* ---------------------------------------------------------------- the last-ops ring (build_run_result) *)
